@@ -142,9 +142,11 @@ def rule_finish_arms(ctx, crate, rule="R-FINISH-ARMS"):
               "ProgressFinish variants match the table", "ProgressFinish variants %s differ from the property's table" % names, cfg)
     fin_params = [i for i in range(1, b.arg_count + 1) if b.locals[i].get("head") == "state::ProgressFinish"]
     fin_locals = set(fin_params)
-    for l, ds in b.defs().items():
-        if any(d["kind"] == "assign" and d["rv"]["k"] == "use" and operand_local(d["rv"]["op"]) in fin_params and not d["rv"]["op"]["place"]["p"] for d in ds):
-            fin_locals.add(l)
+    for _ in range(4):          # plain copies / moves of the argument (also into an inlined helper's parameter)
+        for l, ds in list(b.defs().items()):
+            if any(d["kind"] == "assign" and d["rv"]["k"] == "use" and not d["lhs"]["p"] and d["rv"]["op"].get("k") in ("copy", "move")
+                   and operand_local(d["rv"]["op"]) in fin_locals and not d["rv"]["op"]["place"]["p"] for d in ds):
+                fin_locals.add(l)
     pred = lambda pl: pl["l"] in fin_locals and not pl["p"]
     sw = [x for x in K.discr_switches(b) if K.head_of_type(x[2].get("ty", "")) == "state::ProgressFinish" and pred(x[2])]
     if not sw:
@@ -167,7 +169,9 @@ def rule_finish_arms(ctx, crate, rule="R-FINISH-ARMS"):
         want_set, want_msg, want_hide = ARM_TABLE[v]
         has_set = [c for c in sets if c.bb in reg]
         has_msg = [(i, s) for i, s in msgs if i in reg]
-        has_hide = [i for i, s, st in sts if i in reg and "DoneHidden" in st]
+        with b.restricted(reg):        # values as they are when the argument is this variant
+            sts_v = status_stores(b)
+        has_hide = [i for i, s, st in sts_v if i in reg and "DoneHidden" in st]
         loc = "%s:%d" % (b.file, b.term(sw[0][0]).get("line", 0))
         ctx.check(bool(has_set) == want_set, rule, "%s:position" % v, b.name, loc,
                   "%s %s the position to the length" % (v, "sets" if want_set else "leaves"),
@@ -180,7 +184,8 @@ def rule_finish_arms(ctx, crate, rule="R-FINISH-ARMS"):
                   "%s %s the message" % (v, "stores" if want_msg else "keeps"),
                   "%s arm %s store the supplied message" % (v, "does not" if want_msg else "must not"), cfg)
         for i, s in has_msg:
-            sl = b.slice_rv(i, s)
+            with b.restricted(reg):
+                sl = b.slice_rv(i, s)
             ok = sl.has_call(r"state::TabExpandedString::new") and set(fin_params) & sl.params()
             ctx.check(bool(ok), rule, "%s:message-value" % v, b.name, "%s:%d" % (b.file, s.get("line", 0)),
                       "message := TabExpandedString::new(payload of the variant, ..)", "the stored message is not the variant's payload", cfg)
